@@ -54,6 +54,12 @@ func (m *monitor) parse(p kv.Pair, err error) (rec, bool) {
 		}
 		return rec{}, false
 	}
+	if m.lastVal != "" && p.Value == m.lastVal {
+		// same bytes as the last value decoded (the record just written, read back): same meaning
+		r := m.lastRec
+		r.ver = p.Ver
+		return r, true
+	}
 	var l table.Lease
 	if json.Unmarshal([]byte(p.Value), &l) != nil {
 		return rec{present: true, ver: p.Ver, bad: true, kind: kAmbig}, true
@@ -68,6 +74,7 @@ func (m *monitor) parse(p kv.Pair, err error) (rec, bool) {
 	default:
 		r.kind = kAmbig
 	}
+	m.lastVal, m.lastRec = p.Value, r
 	return r, true
 }
 
@@ -156,6 +163,9 @@ type monitor struct {
 	keys map[string]*keyState
 	st   *stats
 
+	lastVal string // decode cache of parse (guarded by mu)
+	lastRec rec
+
 	viol         []violation
 	inconclusive []string
 	trace        []step // exploration only (one goroutine runs at a time)
@@ -211,8 +221,8 @@ type callState struct {
 // client is the store handed to one table.Manager.
 type client struct {
 	m    *monitor
-	idx  int    // 1-based client index (scheduler identity)
-	node uint64 // NodeID of the manager
+	idx  int                   // 1-based client index (scheduler identity)
+	node uint64                // NodeID of the manager
 	gate func(idx int, op int) // nil = free running (stress)
 	cur  *callState
 }
@@ -455,44 +465,54 @@ func (c *client) Delete(key string, ver uint64) error {
 }
 
 // beginCall / endCall bracket one LeaseTable / ReturnTable call of this client's manager.
-func (c *client) beginCall(kind int, tbl string) {
+func (c *client) beginCall(kind int, key string) {
 	c.m.mu.Lock()
-	c.cur = &callState{kind: kind, key: leaseKey(tbl)}
+	c.cur = &callState{kind: kind, key: key}
 	c.m.mu.Unlock()
 }
 
+// outcome codes of a call (lower case = not judged because the store outcome was ambiguous)
+var outcomeNames = map[byte]string{'N': "nil", 'V': "version-mismatch", 'A': "not-acquired", 'E': "error", 'T': "true", 'F': "false"}
+
+func renderOutcome(b byte) string {
+	if b >= 'a' && b <= 'z' {
+		return outcomeNames[b-'a'+'A'] + "(unjudged)"
+	}
+	return outcomeNames[b]
+}
+
 // endCall judges the call's return value against the writes it made.
-func (c *client) endCall(ok bool, err error) string {
+func (c *client) endCall(ok bool, err error) byte {
 	m := c.m
 	m.mu.Lock()
 	defer m.mu.Unlock()
 	cs := c.cur
 	c.cur = nil
 	c.closeWindow(false)
-	out := ""
+	out := byte('?')
 	switch cs.kind {
 	case cLeaseLong, cLeaseExp:
 		switch {
 		case err == nil:
-			out = "nil"
+			out = 'N'
 		case errors.Is(err, kv.ErrVersionMismatch):
-			out = "version-mismatch"
+			out = 'V'
 			m.st.add("lease_lost_cas", 1)
 		case errors.Is(err, serrors.ErrLeaseNotAcquired):
-			out = "not-acquired"
+			out = 'A'
 			m.st.add("lease_refused", 1)
 			if cs.read != nil && cs.read.present && cs.read.kind == kLive && cs.read.owner != c.node {
 				m.st.add("lease_refused_live_foreign", 1)
 			}
 		default:
-			out = "error"
+			out = 'E'
 			m.st.add("lease_other_error", 1)
 			if !cs.tainted {
 				m.unsure("LeaseTable by n%d failed unexpectedly: %v", c.node, err)
 			}
 		}
 		if cs.tainted || m.key(cs.key).tainted {
-			return out + "(unjudged)"
+			return out - 'A' + 'a'
 		}
 		if err == nil && cs.sets == 0 {
 			readS := "nothing"
@@ -510,25 +530,25 @@ func (c *client) endCall(ok bool, err error) string {
 	case cReturn:
 		switch {
 		case err == nil && ok:
-			out = "true"
+			out = 'T'
 		case err == nil:
-			out = "false"
+			out = 'F'
 			m.st.add("return_false", 1)
 			if cs.read != nil && cs.read.present && cs.read.owner != c.node {
 				m.st.add("return_declined_foreign", 1)
 			}
 		case errors.Is(err, kv.ErrVersionMismatch):
-			out = "version-mismatch"
+			out = 'V'
 			m.st.add("return_lost_cas", 1)
 		default:
-			out = "error"
+			out = 'E'
 			m.st.add("return_other_error", 1)
 			if !cs.tainted {
 				m.unsure("ReturnTable by n%d failed unexpectedly: %v", c.node, err)
 			}
 		}
 		if cs.tainted || m.key(cs.key).tainted {
-			return out + "(unjudged)"
+			return out - 'A' + 'a'
 		}
 		if err == nil && ok && cs.dels == 0 {
 			m.violate("return-true-without-delete", "ReturnTable by n%d returned true although no delete of it succeeded", c.node)
